@@ -93,9 +93,16 @@ def accept_sites(c, g):
     sites = []
     rets = [n for n in g.nodes if n.kind == "ret" and n.expr is not None]
     retvars = set()
+    rtype = (g.f.get("type", {}).get("qualType", "") or "").split("(")[0].strip()
+    is_pred = rtype in ("bool", "_Bool")
     for n in rets:
         e = strip(n.expr)
         s = g.r(e)
+        if is_pred and const_eval(e, c.p.enums) is not None:
+            # predicate helper: it commits to "yes" only with a non-zero constant
+            if const_eval(e, c.p.enums) != 0:
+                sites.append((n, "return " + s))
+            continue
         if e.get("kind") == "DeclRefExpr" and e["referencedDecl"].get("kind") == "VarDecl":
             retvars.add(s)
         elif s == "VALID" or e.get("kind") == "CallExpr" or const_eval(e, c.p.enums) is None:
@@ -148,7 +155,30 @@ def paths(g, start, stops, limit=4000):
     return out
 
 
-def path_events(g, path):
+def helper_events(g, call, depth=0):
+    """events of a glue helper that the rules do not know by name (not in CVOCAB), with its parameters
+    replaced by the call's arguments: statements moved into a new helper still count where they were"""
+    from cvocab import CVOCAB
+    cn = callee_name(call)
+    if cn is None or cn in CVOCAB or cn not in g.prog.funcs or cn == g.name or depth > 2:
+        return []
+    try:
+        h = g.prog.cfg(cn)
+    except cast.Unsupported:
+        return []
+    params = [p_["name"] for p_ in g.prog.params(cn)]
+    args = [g.r(a_) for a_ in call["inner"][1:]]
+    if len(params) != len(args):
+        return []
+    out = []
+    for e in path_events(h, h.nodes, depth + 1):
+        for pn, av in zip(params, args):
+            e = re.sub(r"(?<![\w>.])%s(?!\w)" % re.escape(pn), lambda _m, av=av: av, e)
+        out.append(e)
+    return out
+
+
+def path_events(g, path, depth=0):
     """calls and assignments along a path, as rendered strings"""
     ev = []
     for n in path:
@@ -157,10 +187,12 @@ def path_events(g, path):
         if n.kind == "branch":
             for call in calls_in(n.expr):
                 ev.append(g.r(call))
+                ev.extend(helper_events(g, call, depth))
             continue
         for x in walk(n.expr):
             if x.get("kind") == "CallExpr":
                 ev.append(g.r(x))
+                ev.extend(helper_events(g, x, depth))
             if x.get("kind") == "BinaryOperator" and x["opcode"] == "=":
                 ev.append("%s = %s" % (g.r(x["inner"][0]), g.r(x["inner"][1])))
         if n.kind == "decl" and n.expr is not None and strip(n.expr).get("kind") != "InitListExpr":
@@ -196,7 +228,7 @@ def rule_sanitised(c, rule, fn, expect_objects):
         args = [g.r(a_) for a_ in call["inner"][1:]]
         if len(params) != len(args):
             continue
-        for sf in c.p.accept_summary(cn, "VALID"):
+        for sf in c.p.accept_summary(cn, "VALID") + c.p.accept_summary(cn, "true"):
             m = re.match(r"^E1_read_bytes\((\w+), (\w+), 48\) == VALID$", sf)
             if not m or m.group(1) not in params or m.group(2) not in params:
                 continue
@@ -400,12 +432,15 @@ def rule_C02(c):
 
 def rule_C17(c):
     c.floor("C17.R1", 6)
-    rule_sanitised(c, "C17.R1", "bls_spock_verify", 2)
+    parsed = rule_sanitised(c, "C17.R1", "bls_spock_verify", 2)
     g = c.cfg("C17.R1", "bls_spock_verify")
     if g:
         pk1, sig1, pk2, sig2 = [p["name"] for p in c.p.params("bls_spock_verify")]
         ev = path_events(g, [n for n in g.nodes])
         # the pairing relation e(p1, -pk2) * e(p2, pk1): element 0 ↔ sig1/-pk2, element 1 ↔ sig2/pk1
+        # (which object was parsed from which proof is taken from the parse sites found above, wherever they sit)
+        for obj, need in parsed.items():
+            ev = ev + [need[0][:-len(" == VALID")]]
         want = ["E1_read_bytes(&elemsG1[0], %s, 48)" % sig1, "E1_read_bytes(&elemsG1[1], %s, 48)" % sig2,
                 "E2_neg(&elemsG2[0], %s)" % pk2, "E2_copy(&elemsG2[1], %s)" % pk1]
         missing = [w for w in want if w not in ev]
@@ -866,7 +901,7 @@ def rule_C05(c):
                     "accepted without reading input byte(s) %s: two byte strings differing there decode to the same object and cannot both re-encode to themselves" % (missing if len(missing) < 6 else "%s..%s" % (missing[0], missing[-1])), facts)
     # ---- R2 validation dominates acceptance in the scalar/field readers
     table = {
-        "Fr_read_bytes": ["{len} == 32", "check_mod_256(tmp, BLS12_381_r) != 0"],
+        "Fr_read_bytes": ["{len} == 32", "re:check_mod_256\\((\\w+), BLS12_381_r\\) != 0"],
         "Fr_star_read_bytes": ["Fr_read_bytes({a}, {in}, {len}) == VALID", "Fr_is_zero({a}) == 0"],
         "Fp_read_bytes": ["{len} == 48", "Fp_check({a}) != 0"],
         "Fp2_read_bytes": ["{len} == 96", "Fp_read_bytes(&{a}[0], {in}, 48) == VALID", "Fp_read_bytes(&{a}[1], ({in} + 48), 48) == VALID"],
@@ -886,6 +921,9 @@ def rule_C05(c):
                     # tolerate the field-access rendering of real()/imag() macros
                     alt = w.replace("&%s[0]" % a, "&(*%s)[0]" % a).replace("&%s[1]" % a, "&(*%s)[1]" % a)
                     okk = w in facts or alt in facts or any(norm_eq(f, w) for f in facts)
+                    if nd.startswith("re:"):
+                        okk = any(re.fullmatch(nd[3:], f) for f in facts)
+                        w = nd[3:]
                     c.check(okk, "C05.R2", "%s/accept/%s" % (fn, nd), c.pos(g, n), "validation step dominates acceptance", "%s accepts on a path where `%s` was not established" % (fn, w), facts)
         if nacc == 0:
             c.viol("C05.R2", fn + "/accept", c.p.pos(g.f), "reader never accepts")
@@ -894,7 +932,14 @@ def rule_C05(c):
     if g:
         a, inb, inl = [p["name"] for p in c.p.params("Fr_read_bytes")]
         ev = path_events(g, g.nodes)
-        c.check("pow256_from_be_bytes(tmp, %s)" % inb in ev and "limbs_from_be_bytes(%s, %s, 32)" % (a, inb) in ev, "C05.R2", "Fr_read_bytes/same-bytes", c.p.pos(g.f),
+        tmps = set()
+        for n in g.nodes:
+            if n.kind == "ret" and n.expr is not None and g.r(n.expr) == "VALID":
+                for f in g.resolved_facts(n):
+                    mo = re.fullmatch(r"check_mod_256\((\w+), BLS12_381_r\) != 0", f)
+                    if mo:
+                        tmps.add(mo.group(1))
+        c.check(any("pow256_from_be_bytes(%s, %s)" % (t, inb) in ev for t in tmps) and "limbs_from_be_bytes(%s, %s, 32)" % (a, inb) in ev, "C05.R2", "Fr_read_bytes/same-bytes", c.p.pos(g.f),
                 "range check and import read the same 32 input bytes", "the bytes compared with r are not the 32 bytes imported into the scalar")
     g = c.cfg("C05.R2", "Fp_read_bytes")
     if g:
